@@ -143,9 +143,20 @@ def gen_cases(rng, tier):
         bad = rng.choice([0, 0, 0, 0.05, 0.3])
         a = _wave(rng, dtype, ncol, states, bad)
         e = _wave(rng, dtype, ncol if rng.random() < 0.9 else rng.choice([0, 1, 2, 3]), states, bad)
+        twin = rng.random() < 0.2
+        if twin:
+            # the expected waveform is (nearly) a copy of the actual one, invalid values included: equal raw
+            # values that are not digital states must still be rejected
+            import copy as _copy
+            e = _copy.deepcopy(a)
+            if rng.random() < 0.5 and e["buf"] and e["ncol"]:
+                e["buf"][rng.randrange(len(e["buf"]))][rng.randrange(e["ncol"])] = rng.choice(states)
         c = {"k": "test", "a": a, "e": e}
         for name, lim in (("start_sample", a["cnt"]), ("expected_start_sample", e["cnt"]), ("sample_count", min(a["cnt"], e["cnt"]))):
             m = rng.random()
+            if twin and name == "expected_start_sample" and "start_sample" in c and rng.random() < 0.8:
+                c[name] = c["start_sample"]
+                continue
             if m < 0.35:
                 continue
             elif m < 0.85:
